@@ -292,3 +292,22 @@ def run(chk):
     from .c12 import import_parse_contracts
     chk.guard("R8", lambda: import_parse_contracts(chk, "R8"))
 
+    def r9():
+        # struct-level ghost lines are part of the flavour agreement too: the into_existing form of a ghost line is the Into form with
+        # `other.<child path>.` in front (C01.R3 decides the cells; imported)
+        from ..core import Check, load_known
+        from . import c01
+        sub = Check("C01", chk.repo, chk.tier)
+        sub.guard("R3", lambda: c01.r3_ghost_lines(sub))
+        recorded = {(e["property"], e["key"]) for e in load_known() if e.get("status") == "known"}
+        chk.rule("R9", "ghost lines of Into and into_existing agree (destination = `other.` + child path + name)", floor=4)
+        for r_, why in sub.inconclusive:
+            chk.inconc("R9", why)
+        for i in sub.instances:
+            if i.rule != "R3":
+                continue
+            if i.ok:
+                chk.ok("R9", "ghost:" + i.key, i.file, i.line)
+            elif ("C01", i.key) not in recorded:
+                chk.bad("R9", "ghost:" + i.key, i.file, i.line, i.what, i.expected, i.found)
+    chk.guard("R9", r9)
